@@ -5,11 +5,13 @@ from __future__ import annotations
 
 import hashlib
 import json
+import os
 import random
 from collections import Counter
 
 import ctl
 from ctl import ScriptSim, run_world
+from common import HarnessError
 
 ATTRS = ["nt", "tr", "pe", "ev"]
 TYPES = ["time-based", "event-based", "hybrid"]
@@ -749,8 +751,12 @@ def gen_mas_scenario(rng: random.Random) -> dict:
         # a time-shifted data connection controller -> agent registered BEFORE the async one: the agent must still wait for the
         # controller's step of the same time (the async registration replaces the pair's input delay)
         b = rng.randrange(nc, nc + na)
-        connects.insert(0, {"src": 0, "seid": rng.randrange(2), "dst": b, "deid": rng.randrange(2), "sattr": 2, "dattr": 0, "ts": rng.choice([1, 2]),
-                            "weak": False, "init": True, "async": False})
+        shifted = {"src": 0, "seid": rng.randrange(2), "dst": b, "deid": rng.randrange(2), "sattr": 2, "dattr": 0, "ts": rng.choice([1, 2]),
+                   "weak": False, "init": True, "async": False}
+        if rng.random() < 0.5:
+            connects.insert(0, shifted)
+        else:
+            connects.append(shifted)       # ... or AFTER it: the pair's input delay stays the minimum (0), whichever call came last
     if rng.random() < 0.4:
         sims.append({"type": "time-based", "group": [], "init_ev": None})      # a bystander feeding a controller the ordinary way
         connects.append({"src": len(sims) - 1, "seid": 0, "dst": 0, "deid": 1, "sattr": 3, "dattr": 0, "ts": 0, "weak": False, "init": False,
@@ -1008,12 +1014,30 @@ def run_sched_suite(driver, rng: random.Random, n_scenarios: int, n_schedules: i
         d7 = nonuniform_cutoff(sc, False)
         for j in range(n_schedules):
             sseed = rng.randrange(10 ** 9)
-            if driver is not None:
-                agree, detail, c = compare(driver, sc, sseed)
-                outcome = detail.get("outcome") or detail.get("impl") or "?"
-            else:
-                outcome, c = run_impl(sc, sseed)
-                agree, detail = True, {"outcome": outcome}
+            try:
+                if driver is not None:
+                    agree, detail, c = compare(driver, sc, sseed)
+                    outcome = detail.get("outcome") or detail.get("impl") or "?"
+                else:
+                    outcome, c = run_impl(sc, sseed)
+                    agree, detail = True, {"outcome": outcome}
+            except Exception as e:  # noqa: BLE001
+                # an exception out of the implementation while the scenario is being built (where the harness expects none, e.g. an
+                # AssertionError inside connect) is an observation about the code on THIS scenario: recorded as a disagreement with the
+                # model (which built the scenario without error); the other scenarios still run, so that the monitors can find a
+                # concrete failing input of the property under check
+                import traceback
+                src = os.path.realpath(os.environ.get("MOSAIK_SRC", "/repo"))
+                inside = [f for f in traceback.extract_tb(e.__traceback__)
+                          if os.path.realpath(f.filename).startswith(os.path.join(src, "mosaik") + os.sep)]
+                if not inside or isinstance(e, HarnessError):
+                    raise
+                traces += 1
+                hist["outcome:exception out of the implementation while building"] += 1
+                dis.append({"suite": name, "scenario": sc, "schedule_seed": sseed, "request": "build the scenario",
+                            "impl": f"raised {type(e).__name__}: {str(e)[:120]} at {os.path.basename(inside[-1].filename)}:{inside[-1].lineno} ({inside[-1].name})",
+                            "model": "built without error"})
+                break
             traces += 1
             for ft in set(features(sc, str(outcome))):
                 hist[ft] += 1
